@@ -50,8 +50,33 @@ def parseFate13 (ws : List String) : Option FateOp :=
 def parseFate (ws : List String) : Option FateOp :=
   parseFate13 (if ws.length = 11 ∧ ws.head? = some "fate" then ws ++ ["-", "-"] else ws)
 
+/-- full `ExecuteDKG` run: every member that ends with a signer must not be listed by the
+    chain-accepted result and must hold exactly the selected operators of the members the chain
+    does not list (every seat is held by the one operator `op`), whatever its local view was. -/
+def monitorDkg (n : Nat) (obs : String) : String :=
+  match splitWs obs with
+  | mis :: members =>
+    if !mis.startsWith "mis=" then "FAIL unparsable-observation" else
+    let m := (mis.drop 4).toString
+    let accepted : Option (List Nat) := if m = "none" then none else parseNats m
+    if m ≠ "none" ∧ accepted.isNone then "FAIL unparsable-observation" else
+    if members.length ≠ n then "FAIL members-missing" else
+    let sel := List.replicate n "op"
+    let bad := members.any (fun tok =>
+      match tok.splitOn ":" with
+      | [i, "ok", ops] =>
+        match i.toNat?, accepted with
+        | some i, some misb =>
+          holds i n 0 (some "k") (some ⟨"k", misb⟩) sel (.ok (splitList ops)) == false
+        | _, _ => true          -- a signer although the chain accepted no result
+      | [_, "err"] => false
+      | _ => true)
+    if bad then "FAIL fate-rule" else "ok"
+  | _ => "FAIL unparsable-observation"
+
 def model (line : String) : String :=
   let ws := splitWs line
+  if ws.head? = some "dkg" then "SKIP" else
   match parseFate ws with
   | some o =>
     s!"T={timeoutBlock o.start o.n o.step} " ++ showRes (fateThenOperatorsG o.me o.n o.honest o.myKey o.ev o.sel o.localIA o.localDQ)
@@ -65,6 +90,11 @@ def model (line : String) : String :=
 
 def monitor (op obs : String) : String :=
   let ws := splitWs op
+  if ws.head? = some "dkg" then
+    match ws with
+    | [_, n, _, _, _] => match n.toNat? with | some n => monitorDkg n obs | none => "FAIL bad-op"
+    | _ => "FAIL bad-op"
+  else
   match parseFate ws with
   | some o =>
     match splitWs obs with
